@@ -119,9 +119,18 @@ func (p *spath) fork() *spath {
 		n.visits[k] = v
 	}
 	arrs := map[*[]iv]*[]iv{}
+	cells := map[*iv][]iv{}
 	for _, fr := range p.stack {
 		nf := &sframe{fn: fr.fn, blk: fr.blk, idx: fr.idx, prev: fr.prev, call: fr.call, vals: make(map[ssa.Value]iv, len(fr.vals))}
 		for k, v := range fr.vals {
+			if v.k == 'c' && len(v.tup) == 1 {
+				nc, ok := cells[&v.tup[0]]
+				if !ok {
+					nc = []iv{v.tup[0]}
+					cells[&v.tup[0]] = nc
+				}
+				v.tup = nc
+			}
 			if v.arr != nil {
 				na, ok := arrs[v.arr]
 				if !ok {
@@ -427,8 +436,8 @@ func (e *sengine) step(p *spath, fr *sframe, in ssa.Instruction) {
 		if at, ok := deref(x.Type()).Underlying().(*types.Array); ok {
 			arr := make([]iv, at.Len())
 			fr.vals[x] = iv{k: 'a', arr: &arr}
-		} else if x.Heap {
-			// a variable captured by a closure: a cell
+		} else {
+			// a variable that lives in memory (captured by a closure, or a result spilled around defers): a cell
 			fr.vals[x] = iv{k: 'c', tup: []iv{{}}}
 		}
 	case *ssa.IndexAddr:
